@@ -33,7 +33,7 @@ KINDS = ["def", "def-decorated", "class", "if", "elif", "else", "for", "while", 
 def floors(tier):
     return {"evals": 200 if tier == "quick" else 4000, "distinct": 120,
             "classes": {**{f"marker:{k}": 6 for k in KINDS if k not in ("def-decorated", "class", "try-else")}, "marker:def-decorated": 2, "marker:class": 2,
-                        "marker:try-else": 3, "style:no_cover": 15, "style:only_cover": 15, "auto:__main__": 100, "auto:TYPE_CHECKING": 100,
+                        "marker:try-else": 3, "style:no_cover": 8, "style:only_cover": 8, "auto:__main__": 100, "auto:TYPE_CHECKING": 100,
                         "inline-markers-disabled": 6}}
 
 
@@ -173,7 +173,13 @@ def _one(ctx, prog, ann, modname, scratch, calls, materialise, rng, disable_inli
 
         outside = sorted(ln for ln in goal_lines if isinstance(ln, int) and ln not in only_lines and not in_enclosing_scope_body(ln))
         if outside:
-            ctx.witness("line-goal-outside-only-cover-scopes", f"only_cover={ann['only_cover']} but lines {outside[:8]} are goals; e.g. {src_lines[outside[0] - 1].strip()[:70]!r}", case)
+            parents = {}
+            for par in _ast.walk(_tree):
+                for ch in _ast.iter_child_nodes(par):
+                    parents[ch] = par
+            unresolved = [t for t in targets if not isinstance(parents.get(t), (_ast.Module, _ast.FunctionDef, _ast.AsyncFunctionDef, _ast.ClassDef))]
+            key = "line-goal-outside-only-cover-scopes" + (":only_cover-name:scope-defined-inside-control-flow-statement" if unresolved else "")
+            ctx.witness(key, f"only_cover={ann['only_cover']} but lines {outside[:8]} are goals; e.g. {src_lines[outside[0] - 1].strip()[:70]!r}", case)
             return
     must = {ln for ln in executed if ln not in excluded and (only_lines is None or ln in only_lines)}
     missing = sorted(must - goal_lines)
